@@ -4,7 +4,7 @@
 cd "$(dirname "$0")/.."
 tier=$1; seed=$2; shift 2
 ids=${@:-C01 C02 C03 C04 C05 C06 C07 C08 C09 C10 C11 C12 C13 C14 C15 C16 C17 C18 C19 C20}
-save=$(mktemp -d /tmp/verif-evidence-save.XXXXXX); cp -r evidence "$save/"
+export VERIF_EVIDENCE_DIR=$(mktemp -d /tmp/verif-evidence-scratch.XXXXXX)
 for id in $ids; do
   s=$(date +%s)
   out=$(VERIF_SEED=$seed ./run $id $tier 2>&1); code=$?
@@ -12,4 +12,4 @@ for id in $ids; do
   echo "$id tier=$tier seed=$seed exit=$code ${e}s $(echo "$out" | grep -cE '^VIOLATION') violations; $(echo "$out" | grep -E "^$id (quick|thorough)" | sed 's/.*evaluations/evaluations/')"
   [ $code -ne 0 ] && echo "$out" | grep -E 'VIOLATION|signature|INCONCLUSIVE' | head -8 | cut -c1-300
 done
-rm -rf evidence; mv "$save/evidence" evidence; rmdir "$save"
+rm -rf "$VERIF_EVIDENCE_DIR"
